@@ -144,6 +144,7 @@ func (fr *frame) execInstr(st *state, in ssa.Instruction) {
 		fr.markEscaped(st, val, v.Val.Type())
 		if l, ok := fr.locs[v.Addr]; ok {
 			if l != nil {
+				fr.fieldFrame(st, l, v.Pos())
 				if fk, ok := fc.fieldInvOf(l.key); ok && len(l.path) == 0 && fr.sweepOn() {
 					fr.oblige(st, "fieldinv", fk, v.Pos(), nonNilTerm(val, l.sort), "field "+fk+" must never be nil")
 				}
@@ -155,6 +156,9 @@ func (fr *frame) execInstr(st *state, in ssa.Instruction) {
 			return
 		}
 		if g, ok := v.Addr.(*ssa.Global); ok {
+			if only, has := fc.e.contracts.GlobalFrame[g.Pkg.Pkg.Name()]; has && g.Name() != "init$guard" && !matchFuncs(only, fc.e.keyOf(fr.fn)) {
+				fr.oblige(st, "globalframe", g.Pkg.Pkg.Name()+"."+g.Name(), v.Pos(), "false", "a package-level variable is written outside the functions allowed to (shared by every call: C18)")
+			}
 			et := g.Type().Underlying().(*types.Pointer).Elem()
 			fc.hset(st, "X|"+g.Pkg.Pkg.Name()+"."+g.Name()+"|"+u.sortOf(et), val)
 			return
@@ -933,3 +937,43 @@ func anchorOfCall(fr *frame, pos token.Pos) string {
 }
 
 var _ = strings.TrimSpace
+
+
+func matchFuncs(pats []string, key string) bool {
+	for _, p := range pats {
+		if p == key || (strings.HasSuffix(p, "*") && strings.HasPrefix(key, strings.TrimSuffix(p, "*"))) {
+			return true
+		}
+	}
+	return false
+}
+
+// fieldFrame: frame obligation of a fieldframe directive at a store through location l.
+func (fr *frame) fieldFrame(st *state, l *Loc, pos token.Pos) {
+	fc := fr.fc
+	if len(fc.e.contracts.FieldFrame) == 0 || !strings.HasPrefix(l.key, "F|") || strings.Contains(l.key, "@") || len(l.idx) == 0 {
+		return
+	}
+	name := l.key[2:]
+	if i := strings.Index(name, "|"); i >= 0 {
+		name = name[:i]
+	}
+	// name = pkg.Type.field
+	typ := name
+	if i := strings.LastIndex(name, "."); i >= 0 {
+		typ = name[:i]
+	}
+	for _, k := range []string{name, typ} {
+		only, ok := fc.e.contracts.FieldFrame[k]
+		if !ok || matchFuncs(only, fc.e.keyOf(fr.fn)) {
+			continue
+		}
+		entry := fr
+		for entry.parent != nil {
+			entry = entry.parent
+		}
+		if entry.old != nil {
+			fr.oblige(st, "fieldframe", name, pos, fmt.Sprintf("(>= %s %s)", l.idx[0], entry.old.alloc), "field "+name+" is written outside its owning functions in an object this function did not allocate (state shared between calls: C18)")
+		}
+	}
+}
